@@ -10,11 +10,14 @@
      on success its buffer IS the disk content of the block it designates;
    * the loop of `adfFileRead` (handle not open for writing) never touches the disk, delivers at most the
      requested number of bytes, only ever appends to what it delivered, and moves the position by at most the request.
-  Not proved here (left to the trace-exact correspondence, the byte-array oracle under exhaustive single-fault
-  enumeration, and ASan): that the bytes delivered are the file's content at that offset for every layout
-  (the block walk), and real memory safety of the C error paths.
+   * `adfFileSeek` / `adfFileRead` on a read-mode handle with a valid buffer: every byte delivered is a byte of a data
+     block as it is on the disk — never a stale, unloaded or failed buffer — through every fallback path of the seek.
+  Not proved here (left to the trace-exact correspondence, the byte-array oracle under fault enumeration, and ASan):
+  that the block the cursor designates is the right one for the offset for every layout (C01 gives the arithmetic),
+  handles open for writing, and real memory safety of the C error paths.
 -/
 import AdfProofs.FileReadLemmas
+import AdfProofs.SeekLemmas
 namespace Adf.C19
 open Adf
 
@@ -64,5 +67,30 @@ theorem C19_read_loop (c : Cfg) (dbs doff fuel : Nat) (h : FileH) (remaining : N
 
 /-- non-vacuity: a schedule that fails the very next access exists and `tick` says so -/
 example : ({ faultAt := some 0 } : St).tick.1 = true := by decide
+
+/-- **a read never delivers bytes that are not on the disk.**  For a handle not open for writing whose buffer is valid
+    on entry (it holds no block, or the block it designates as that block is on the disk — true of every freshly opened
+    handle and preserved by this very theorem), for every disk content, file layout and fault schedule: every byte
+    `adfFileRead` delivers is a byte of a data block of the volume as it is on the disk (a concatenation of slices of
+    sector images at the data offset) — never a stale, unloaded or failed buffer; the disk is untouched; and on exit
+    the buffer is valid again unless a seek met a block pointer < 2 / negative in the file's own lists. -/
+theorem C19_read_returns_disk_bytes (c : Cfg) (h : FileH) (n : Nat) (s : St)
+    (hro : h.modeWrite = false) (hb : BufValid c s.disk h) :
+    Post AnyFault c (fileRead h n) s (fun r s' =>
+      s'.disk = s.disk ∧ Same h r.2 ∧ Weak c s.disk r.2 ∧ FromDisk c s.disk h.vol (dataOff (c.vol h.vol)) r.1) :=
+  fileRead_fromDisk c h n s hro hb
+
+/-- every seek of a read-mode handle: disk untouched; success means the buffer IS the designated block's disk content
+    (or the file is empty); failure leaves no block or a rejected pointer — under any fault schedule, including the
+    fallback paths (extension blocks unreadable, OFS chain walk) -/
+theorem C19_seek_loads_or_fails (c : Cfg) (h : FileH) (pos : Nat) (s : St)
+    (hro : h.modeWrite = false) (hb : BufValid c s.disk h) :
+    Post AnyFault c (seek h pos) s (fun r s' =>
+      s'.disk = s.disk ∧ Same h r.2 ∧ Weak c s.disk r.2 ∧ (r.1 = rcOK → Loaded c s.disk r.2 ∨ h.byteSize = 0)) :=
+  (seek_family c SEEK_FUEL).1 h pos s hro hb
+
+/-- non-vacuity: a handle that holds no block is valid, whatever its buffer contains -/
+example (c : Cfg) (disk : Std.HashMap Nat Bytes) (h : FileH) (h0 : h.curDataPtr = 0) : BufValid c disk h :=
+  BufValid.of_zero h0
 
 end Adf.C19
